@@ -1,5 +1,9 @@
-(** C15, registry clause: proofs of the statements of CronHooksSpec.v, and the
-    refutations (findings D28a-e) as computed counterexamples. *)
+(** C15, registry clause: proofs of the statements of CronHooksSpec.v about one
+    operation - the calls that an operation of the state API makes to the cron
+    service keep the registry equal to the stored scheduled rules, on every
+    path: add, overwrite, removal with its cascade, purge of expired items,
+    clear.  (The histories, with restarts, are in CronHooksHist.v.)  The former
+    counterexamples of finding D28 are positive examples here. *)
 From Coq Require Import Lia.
 From Verif Require Import Json Outcome Match PatIndex State Location CronHooks StateSpec
   MatchLemmas1 AssocLemmas StateProofs DurableFrame DurableInv DurablePrepare DurableSpec
@@ -141,442 +145,459 @@ Qed.
 Lemma will_fail_nofail s : st_fail s = None -> will_fail s = false.
 Proof. unfold will_fail. intros ->. reflexivity. Qed.
 
-Lemma fst_cstep persistent s reg o : fst (cstep persistent (s, reg) o) = sstep s o.
-Proof.
-  destruct o as [op now]. unfold cstep, sstep. destruct op; try reflexivity.
-  destruct (st_add s given x now fresh aux); reflexivity.
-Qed.
+(** * 3. The calls track the fact map
 
-(** others_kept, as a proposition *)
-Lemma others_kept_spec s s' id :
-  st_wf s -> others_kept s s' id = true ->
-  forall j sch, alookup j (scheduled_rules s) = Some sch -> j <> id -> alookup j (st_facts s') <> None.
-Proof.
-  intros W H j sch Hl Hne. unfold others_kept in H. rewrite forallb_forall in H.
-  specialize (H (j, sch) (AssocLemmas.alookup_In _ _ _ Hl)). cbn [fst] in H.
-  apply orb_true_iff in H. destruct H as [H|H].
-  - apply String.eqb_eq in H. contradiction.
-  - destruct (alookup j (st_facts s')); [discriminate|discriminate].
-Qed.
+    [tracks reg s]: the registry holds, for every id, the schedule of the fact
+    stored under it (none if there is no fact or the fact is not a scheduled
+    rule).  Every lemma below has the shape: if the registry tracks the state
+    before, then after the calls of the operation it tracks the state after. *)
 
-Lemma others_kept_complete s s' id :
-  (forall j sch, alookup j (scheduled_rules s) = Some sch -> j <> id -> alookup j (st_facts s') <> None) ->
-  others_kept s s' id = true.
-Proof.
-  intros H. unfold others_kept. apply forallb_forall. intros [j sch] Hin. cbn [fst].
-  destruct (String.eqb_spec j id) as [->|Hne]; [reflexivity|]. cbn [orb].
-  pose proof (In_sorted_alookup j sch _ (scheduled_rules_sorted s) Hin) as Hl.
-  specialize (H j sch Hl Hne). destruct (alookup j (st_facts s')); [reflexivity|contradiction].
-Qed.
+Definition run (cs : list ccall) (reg : registry) : registry := fold_left apply_call cs reg.
 
-(** the registry only looks at the stored facts *)
-Lemma registry_exact_pending reg s p : registry_exact reg (set_pending s p) = registry_exact reg s.
+Definition tracks (reg : registry) (s : state) : Prop := forall j, alookup j reg = olk j s.
+
+Lemma run_app cs1 cs2 reg : run (cs1 ++ cs2) reg = run cs2 (run cs1 reg).
+Proof. unfold run. apply fold_left_app. Qed.
+
+Lemma run_nil reg : run [] reg = reg.
 Proof. reflexivity. Qed.
 
-(** nothing expired: a Get answers from the fact map and only empties the
-    list of noted ids; so does the purge that ends a Rem *)
-Lemma st_get_noexp_eq s id now :
-  no_expired s now ->
-  st_get s id now = (set_pending s [],
-                     match alookup id (st_facts s) with Some f => Ok f | None => Err "notfound" end).
+Lemma tracks_exact reg s :
+  st_wf s -> sorted_keys (map fst reg) = true -> tracks reg s -> registry_exact reg s = true.
+Proof. intros W Hs H. apply exact_intro; assumption. Qed.
+
+Lemma exact_tracks reg s :
+  st_wf s -> registry_exact reg s = true -> sorted_keys (map fst reg) = true /\ tracks reg s.
+Proof. intros W H. apply exact_elim; assumption. Qed.
+
+Lemma run_sorted cs reg : sorted_keys (map fst reg) = true -> sorted_keys (map fst (run cs reg)) = true.
+Proof. apply apply_calls_sorted. Qed.
+
+(** the reads proper: same facts, same static fields *)
+Definition SameF (s s' : state) : Prop :=
+  st_facts s' = st_facts s /\ st_hooks s' = st_hooks s /\ st_fail s' = st_fail s /\ st_kind s' = st_kind s.
+
+Lemma SameF_refl s : SameF s s.
+Proof. repeat split. Qed.
+Lemma SameF_trans a b c : SameF a b -> SameF b c -> SameF a c.
+Proof. intros (A1 & A2 & A3 & A4) (B1 & B2 & B3 & B4). repeat split; congruence. Qed.
+Lemma SameF_pending s (p : list string) : SameF s (set_pending s p).
+Proof. repeat split. Qed.
+
+Lemma tracks_SameF reg s s' : SameF s s' -> tracks reg s -> tracks reg s'.
+Proof. intros (F & _) H j. unfold olk. rewrite F. apply H. Qed.
+
+Lemma search_state_SameF s p now : SameF s (fst (search_state s p now)).
+Proof. apply (search_state_R SameF SameF_refl SameF_trans SameF_pending). Qed.
+Lemma get_body_SameF s id now : SameF s (fst (get_body s id now)).
+Proof. apply (get_body_R SameF SameF_refl SameF_pending). Qed.
+Lemma find_body_SameF s ev now : SameF s (fst (find_body s ev now)).
 Proof.
-  intros Hne. unfold st_get.
-  rewrite (DurableExpiry.with_purge_noexp (get_body s id now) now)
-    by (rewrite (DurableExpiry.get_body_noexp s id now Hne); exact Hne).
-  rewrite (DurableExpiry.get_body_noexp s id now Hne). f_equal.
-  unfold get_body. destruct (alookup id (st_facts s)) as [f|] eqn:El; [|reflexivity].
-  rewrite (expire_false s id f now (Hne id f El)). reflexivity.
+  unfold find_body. destruct (st_kind s).
+  - destruct (pi_search (st_pindex s) ev); try apply SameF_refl.
+    apply (find_ids_idx_R SameF SameF_refl SameF_trans SameF_pending).
+  - apply (find_ids_lin_R SameF SameF_refl SameF_trans SameF_pending).
 Qed.
 
-Lemma st_Rem_hooks_noexp s id now :
-  no_expired s now -> st_hooks s = true ->
-  st_Rem s id now =
-  match alookup id (st_facts s) with
-  | Some _ => (set_pending (fst (st_rem (set_pending s []) id now)) [], snd (st_rem (set_pending s []) id now))
-  | None => (set_pending s [], Err "notfound")
-  end.
+(** ** The head of a removal *)
+
+Lemma crem_head_eq s id : crem_head s id = rem_head s id.
+Proof. reflexivity. Qed.
+
+(** does the head delete the record from the fact map? *)
+Definition head_removes (s : state) : bool :=
+  match st_kind s with Indexed => true | Linear => negb (snd (store_call s)) end.
+
+Lemma snd_store_call s : snd (store_call s) = will_fail s.
+Proof. reflexivity. Qed.
+
+Lemma rem_head_lookup s id j :
+  alookup j (st_facts (fst (rem_head s id))) =
+  if head_removes s && String.eqb j id then None else alookup j (st_facts s).
 Proof.
-  intros Hne Hh. unfold st_Rem. rewrite Hh, (st_get_noexp_eq s id now Hne).
-  destruct (alookup id (st_facts s)) as [f|].
-  - rewrite DurableExpiry.with_purge_noexp; [reflexivity|].
-    eapply Sub_no_expired; [apply st_rem_Sub|exact Hne].
-  - rewrite DurableExpiry.with_purge_noexp; [reflexivity|exact Hne].
+  unfold rem_head, head_removes. destruct (st_kind s).
+  - cbn [andb]. destruct (alookup id (st_facts s)) as [fact|] eqn:El.
+    + pose proof (facts_idx_drop s id fact) as F0.
+      destruct (idx_drop_fields s id fact) as (_ & F2 & _).
+      unfold store_call.
+      destruct (match st_fail (idx_drop s id fact) with
+                | Some n => Nat.eqb n (st_calls (idx_drop s id fact)) | None => false end);
+        cbn [fst st_facts set_store]; rewrite F0; apply alookup_aremove.
+    + cbn [fst]. destruct (String.eqb_spec j id) as [->|Hne]; [exact El|reflexivity].
+  - unfold store_call.
+    destruct (match st_fail s with Some n => Nat.eqb n (st_calls s) | None => false end);
+      cbn [fst snd negb andb st_facts set_store set_facts]; [reflexivity|apply alookup_aremove].
 Qed.
+
+Lemma head_removes_nofail s : st_fail s = None -> head_removes s = true.
+Proof.
+  intros Hf. unfold head_removes. destruct (st_kind s); [reflexivity|].
+  rewrite snd_store_call, (will_fail_nofail s Hf). reflexivity.
+Qed.
+
+Lemma alookup_run_rem reg i j : alookup j (run [CRemJ i] reg) = if String.eqb j i then None else alookup j reg.
+Proof. cbn [run fold_left apply_call]. apply alookup_aremove. Qed.
+
+(** the head, with the rem hook for the record that leaves *)
+Lemma head_tracks_unhook reg s id :
+  st_hooks s = true -> tracks reg s ->
+  tracks (run (crem_head_calls s id) reg) (fst (rem_head s id)).
+Proof.
+  intros Hh H j. unfold olk. rewrite rem_head_lookup. unfold crem_head_calls.
+  destruct (alookup id (st_facts s)) as [fact|] eqn:El.
+  - assert (Hcase : forall b, head_removes s = b ->
+              alookup j (run (if b then unhook_calls s id fact else []) reg) =
+              match (if b && String.eqb j id then None else alookup j (st_facts s)) with
+              | Some f => fact_schedule f | None => None end).
+    { intros [|] _; cbn [andb].
+      - unfold unhook_calls. rewrite Hh. destruct (fact_schedule fact) as [sch|] eqn:Es.
+        + rewrite alookup_run_rem. destruct (String.eqb j id); [reflexivity|apply H].
+        + rewrite run_nil. destruct (String.eqb_spec j id) as [->|Hne]; [|apply H].
+          rewrite H. unfold olk. rewrite El. exact Es.
+      - rewrite run_nil. apply H. }
+    unfold head_removes in *. destruct (st_kind s).
+    + apply (Hcase true eq_refl).
+    + destruct (snd (store_call s)); [apply (Hcase false eq_refl)|apply (Hcase true eq_refl)].
+  - rewrite run_nil. destruct (head_removes s && String.eqb j id) eqn:E; [|apply H].
+    apply andb_true_iff in E. destruct E as [_ E]. apply String.eqb_eq in E. subst j.
+    rewrite H. unfold olk. rewrite El. reflexivity.
+Qed.
+
+(** the head of the public Rem's removal: the hook has run for [id] already *)
+Lemma head_tracks_top reg s id :
+  st_fail s = None ->
+  (forall j, j <> id -> alookup j reg = olk j s) -> alookup id reg = None ->
+  tracks reg (fst (rem_head s id)).
+Proof.
+  intros Hf H Hid j. unfold olk. rewrite rem_head_lookup, (head_removes_nofail s Hf). cbn [andb].
+  destruct (String.eqb_spec j id) as [->|Hne]; [exact Hid|apply H; exact Hne].
+Qed.
+
+(** ** The cascade *)
+
+Section TrackRec.
+  Variable rr : state -> string -> Z -> state * outcome bool.
+  Variable rc : state -> string -> Z -> list ccall.
+  Hypothesis rr_Sub : forall s j now, Sub s (fst (rr s j now)).
+  Hypothesis rc_tracks : forall s j now reg,
+    st_hooks s = true -> tracks reg s -> tracks (run (rc s j now) reg) (fst (rr s j now)).
+
+  Lemma crem_list_tracks ids : forall s skip now reg,
+    st_hooks s = true -> tracks reg s ->
+    tracks (run (crem_list rr rc s ids skip now) reg) (fst (rem_list rr s ids skip now)).
+  Proof.
+    induction ids as [|j r IH]; intros s skip now reg Hh H; cbn [crem_list rem_list]; [exact H|].
+    destruct (skipped skip j); [apply IH; assumption|].
+    rewrite run_app.
+    pose proof (rc_tracks s j now reg Hh H) as H1.
+    pose proof (rr_Sub s j now) as (_ & Hh1 & _).
+    destruct (rr s j now) as [s1 [b|e|w|]]; cbn [fst] in *; try (rewrite run_nil; exact H1).
+    apply IH; [congruence|exact H1].
+  Qed.
+
+  Lemma cdelete_tracks s id now reg :
+    st_hooks s = true -> tracks reg s ->
+    tracks (run (cdelete_dependencies rr rc s id now) reg) (fst (delete_dependencies rr s id now)).
+  Proof.
+    intros Hh H. unfold cdelete_dependencies, delete_dependencies.
+    pose proof (search_state_SameF s (dw_pattern id) now) as HS.
+    destruct (search_state s (dw_pattern id) now) as [s1 [found|e|w|]]; cbn [fst] in *;
+      try (rewrite run_nil; eapply tracks_SameF; eassumption).
+    apply crem_list_tracks.
+    - destruct HS as (_ & E & _). congruence.
+    - eapply tracks_SameF; eassumption.
+  Qed.
+
+  Lemma deps_tracks s id now reg :
+    st_hooks s = true -> tracks reg (fst (rem_head s id)) ->
+    tracks (run (if snd (crem_head s id) then cdelete_dependencies rr rc (fst (crem_head s id)) id now else []) reg)
+           (fst (rem_body rr s id now)).
+  Proof.
+    intros Hh H. rewrite rem_body_head, crem_head_eq.
+    destruct (snd (rem_head s id)).
+    - rewrite fst_wrapb. apply cdelete_tracks; [|exact H].
+      destruct (Sub_head s id) as (_ & E & _). congruence.
+    - rewrite run_nil. exact H.
+  Qed.
+
+  Lemma crem_body_tracks s id now reg :
+    st_hooks s = true -> tracks reg s ->
+    tracks (run (crem_body rr rc true s id now) reg) (fst (rem_body rr s id now)).
+  Proof.
+    intros Hh H. unfold crem_body. rewrite run_app.
+    apply deps_tracks; [exact Hh|]. apply head_tracks_unhook; assumption.
+  Qed.
+
+  Lemma crem_body_tracks_top s id now reg :
+    st_hooks s = true -> st_fail s = None ->
+    (forall j, j <> id -> alookup j reg = olk j s) -> alookup id reg = None ->
+    tracks (run (crem_body rr rc false s id now) reg) (fst (rem_body rr s id now)).
+  Proof.
+    intros Hh Hf H Hid. unfold crem_body. cbn [app].
+    apply deps_tracks; [exact Hh|]. apply head_tracks_top; assumption.
+  Qed.
+End TrackRec.
+
+Lemma crem_fuel_tracks fuel : forall s id now reg,
+  st_hooks s = true -> tracks reg s ->
+  tracks (run (crem_fuel fuel true s id now) reg) (fst (rem_fuel fuel s id now)).
+Proof.
+  induction fuel as [|f IH]; intros s id now reg Hh H; cbn [crem_fuel rem_fuel]; [exact H|].
+  apply crem_body_tracks; [apply rem_fuel_Sub|exact IH|exact Hh|exact H].
+Qed.
+
+Lemma cascade_fuel_S s : exists f, cascade_fuel s = S f.
+Proof. unfold cascade_fuel. exists (2 * length (st_facts s) + 3)%nat. lia. Qed.
+
+(** the internal rem, hook included (dependents, expired items) *)
+Lemma st_rem_tracks s id now reg :
+  st_hooks s = true -> tracks reg s ->
+  tracks (run (calls_rem_rec true s id now) reg) (fst (st_rem s id now)).
+Proof. apply crem_fuel_tracks. Qed.
+
+(** the internal rem of the public Rem (the hook has run for the id) *)
+Lemma st_rem_tracks_top s id now reg :
+  st_hooks s = true -> st_fail s = None ->
+  (forall j, j <> id -> alookup j reg = olk j s) -> alookup id reg = None ->
+  tracks (run (calls_rem_rec false s id now) reg) (fst (st_rem s id now)).
+Proof.
+  intros Hh Hf H Hid. unfold calls_rem_rec, st_rem.
+  destruct (cascade_fuel_S s) as [f ->]. cbn [crem_fuel rem_fuel].
+  apply crem_body_tracks_top; try assumption; [apply rem_fuel_Sub|].
+  intros s0 j now0 reg0. apply crem_fuel_tracks.
+Qed.
+
+(** ** The purge *)
+
+Lemma cpurge_ids_tracks ids : forall s now reg,
+  st_hooks s = true -> tracks reg s ->
+  tracks (run (cpurge_ids s ids now) reg) (fst (purge_ids s ids now)).
+Proof.
+  induction ids as [|id r IH]; intros s now reg Hh H; cbn [cpurge_ids purge_ids]; [exact H|].
+  destruct (alookup id (st_facts s)) as [fact|]; [|apply IH; assumption].
+  destruct (fact_expired fact now); [|apply IH; assumption].
+  rewrite run_app.
+  pose proof (st_rem_tracks s id now reg Hh H) as H1.
+  pose proof (st_rem_Sub s id now) as (_ & Hh1 & _).
+  destruct (st_rem s id now) as [s1 [b|e|w|]]; cbn [fst] in *; try (rewrite run_nil; exact H1);
+    (apply IH; [congruence|exact H1]).
+Qed.
+
+Lemma cpurge_fuel_tracks fuel : forall s now reg,
+  st_hooks s = true -> tracks reg s ->
+  tracks (run (cpurge_fuel fuel s now) reg) (fst (purge_fuel fuel s now)).
+Proof.
+  induction fuel as [|f IH]; intros s now reg Hh H; cbn [cpurge_fuel purge_fuel].
+  - destruct (st_pending s); exact H.
+  - destruct (st_pending s) as [|i ids]; [exact H|].
+    rewrite run_app.
+    assert (H0 : tracks reg (set_pending s [])) by exact H.
+    pose proof (cpurge_ids_tracks (i :: ids) (set_pending s []) now reg Hh H0) as H1.
+    pose proof (purge_ids_R Sub Sub_refl Sub_trans Sub_pending Sub_head (i :: ids) (set_pending s []) now)
+      as (_ & Hh1 & _).
+    destruct (purge_ids (set_pending s []) (i :: ids) now) as [s1 [u|e|w|]]; cbn [fst] in *;
+      try (rewrite run_nil; exact H1).
+    apply IH; [cbn [st_hooks set_pending] in Hh1; congruence|exact H1].
+Qed.
+
+Lemma purge_tracks s now reg :
+  st_hooks s = true -> tracks reg s -> tracks (run (calls_purge s now) reg) (fst (purge s now)).
+Proof. apply cpurge_fuel_tracks. Qed.
+
+Lemma with_purge_tracks {A} (r : state * outcome A) now reg :
+  st_hooks (fst r) = true -> tracks reg (fst r) ->
+  tracks (run (calls_purge (fst r) now) reg) (fst (with_purge r now)).
+Proof. intros Hh H. unfold with_purge. cbn [fst]. apply purge_tracks; assumption. Qed.
+
+(** ** The public operations *)
+
+Lemma get_tracks s id now reg :
+  st_hooks s = true -> tracks reg s -> tracks (run (calls_get s id now) reg) (fst (st_get s id now)).
+Proof.
+  intros Hh H. unfold calls_get, st_get. pose proof (get_body_SameF s id now) as HS.
+  apply with_purge_tracks; [destruct HS as (_ & E & _); congruence|eapply tracks_SameF; eassumption].
+Qed.
+
+Lemma search_tracks s p now reg :
+  st_hooks s = true -> tracks reg s -> tracks (run (calls_search s p now) reg) (fst (st_search s p now)).
+Proof.
+  intros Hh H. unfold calls_search, st_search. pose proof (search_state_SameF s p now) as HS.
+  apply with_purge_tracks; [destruct HS as (_ & E & _); congruence|eapply tracks_SameF; eassumption].
+Qed.
+
+Lemma do_find_rules_body s ev now : do_find_rules s ev now = with_purge (find_body s ev now) now.
+Proof. reflexivity. Qed.
+
+Lemma fst_st_find_rules s ev now : fst (st_find_rules s ev now) = fst (do_find_rules s ev now).
+Proof.
+  unfold st_find_rules. destruct (do_find_rules s ev now) as [s1 res]. destruct res; reflexivity.
+Qed.
+
+Lemma find_tracks s ev now reg :
+  st_hooks s = true -> tracks reg s -> tracks (run (calls_find s ev now) reg) (fst (st_find_rules s ev now)).
+Proof.
+  intros Hh H. rewrite fst_st_find_rules, do_find_rules_body. unfold calls_find.
+  pose proof (find_body_SameF s ev now) as HS.
+  apply with_purge_tracks; [destruct HS as (_ & E & _); congruence|eapply tracks_SameF; eassumption].
+Qed.
+
+(** what Get answers is what is stored under the id *)
+Lemma st_get_ok_stored s id now s1 fact :
+  st_get s id now = (s1, Ok fact) -> alookup id (st_facts s) = Some fact.
+Proof.
+  intros E0. assert (E : snd (st_get s id now) = Ok fact) by (rewrite E0; reflexivity). clear E0.
+  unfold st_get, with_purge, get_body in E. cbv zeta in E. cbn [snd] in E.
+  destruct (alookup id (st_facts s)) as [f|].
+  - destruct (expire s id f now) as [s0 [|]]; cbn [snd fst] in E.
+    + destruct (snd (purge s0 now)); discriminate.
+    + destruct (snd (purge s0 now)); try discriminate; injection E as ->; reflexivity.
+  - cbn [snd fst] in E. destruct (snd (purge s now)); discriminate.
+Qed.
+
+Lemma Rem_tracks s id now reg :
+  st_hooks s = true -> st_fail s = None -> tracks reg s ->
+  tracks (run (calls_Rem s id now) reg) (fst (st_Rem s id now)).
+Proof.
+  intros Hh Hf H. unfold calls_Rem, st_Rem. rewrite Hh. cbn [negb]. rewrite run_app.
+  pose proof (get_tracks s id now reg Hh H) as H1.
+  pose proof (st_get_Sub s id now) as HS.
+  pose proof (st_get_ok_stored s id now) as Hst.
+  destruct (st_get s id now) as [s1 [fact|e|w|]]; cbn [fst] in *.
+  - destruct HS as (_ & Hh1 & Hf1 & _ & HF & _).
+    assert (Hh1' : st_hooks s1 = true) by congruence.
+    assert (Hf1' : st_fail s1 = None) by congruence.
+    specialize (Hst s1 fact eq_refl).
+    rewrite !run_app.
+    set (reg1 := run (calls_get s id now) reg) in *.
+    set (reg2 := run (match fact_schedule fact with Some _ => [CRemJ id] | None => [] end) reg1).
+    assert (Hoth : forall j, j <> id -> alookup j reg2 = olk j s1).
+    { intros j Hne. unfold reg2. destruct (fact_schedule fact).
+      - rewrite alookup_run_rem. apply String.eqb_neq in Hne. rewrite Hne. apply H1.
+      - apply H1. }
+    assert (Hid : alookup id reg2 = None).
+    { unfold reg2. destruct (fact_schedule fact) as [sch|] eqn:Es.
+      - rewrite alookup_run_rem, String.eqb_refl. reflexivity.
+      - rewrite run_nil, H1. unfold olk. destruct (alookup id (st_facts s1)) as [f|] eqn:E1; [|reflexivity].
+        apply HF in E1. rewrite Hst in E1. injection E1 as <-. exact Es. }
+    pose proof (st_rem_tracks_top s1 id now reg2 Hh1' Hf1' Hoth Hid) as H3.
+    apply with_purge_tracks; [|exact H3].
+    destruct (st_rem_Sub s1 id now) as (_ & E & _). congruence.
+  - apply (with_purge_tracks (A:=bool) (s1, Err e)); [destruct HS as (_ & E & _); cbn [fst]; congruence|exact H1].
+  - apply (with_purge_tracks (A:=bool) (s1, Panic w)); [destruct HS as (_ & E & _); cbn [fst]; congruence|exact H1].
+  - apply (with_purge_tracks (A:=bool) (s1, OutOfFuel)); [destruct HS as (_ & E & _); cbn [fst]; congruence|exact H1].
+Qed.
+
+Lemma add_tracks persistent s g x now fr aux reg :
+  st_hooks s = true -> st_fail s = None -> tracks reg s ->
+  tracks (run (calls_add persistent false s (fst (st_add s g x now fr aux)) (snd (st_add s g x now fr aux))) reg)
+         (fst (st_add s g x now fr aux)).
+Proof.
+  intros Hh Hf H.
+  destruct (prepare_fact g x now fr aux) as [[id fact]|e|w|] eqn:Hp.
+  2-4: rewrite st_add_prepare_err by (rewrite Hp; intros p; discriminate);
+       rewrite Hp; cbn [fst snd]; unfold calls_add; rewrite Hh; cbn [negb]; exact H.
+  destruct (st_add_shape s g x now fr aux id fact Hp) as (c & (F1 & F2 & F3 & F4 & F5 & _) & Hcnd).
+  set (s1 := fst (st_add s g x now fr aux)) in *. set (r := snd (st_add s g x now fr aux)) in *.
+  pose proof (will_fail_nofail s Hf) as Hwf.
+  unfold calls_add. rewrite F2, Hh. cbn [negb]. rewrite andb_false_r.
+  assert (Hfailcase : (exists e, r = Err e) -> ac_mem c = false ->
+            tracks (run match r with
+                        | Ok id0 => match alookup id0 (st_facts s1) with
+                                    | Some fact0 => match fact_schedule fact0 with
+                                                    | Some sch => [CSched id0 sch]
+                                                    | None => match alookup id0 (st_facts s) with
+                                                              | Some old => unhook_calls s id0 old
+                                                              | None => [] end
+                                                    end
+                                    | None => [] end
+                        | _ => [] end reg) s1).
+  { intros (e & ->) Hm. rewrite run_nil. rewrite Hm in F5. intros j. unfold olk. rewrite F5. apply H. }
+  assert (Hokcase : r = Ok id -> ac_mem c = true ->
+            tracks (run match r with
+                        | Ok id0 => match alookup id0 (st_facts s1) with
+                                    | Some fact0 => match fact_schedule fact0 with
+                                                    | Some sch => [CSched id0 sch]
+                                                    | None => match alookup id0 (st_facts s) with
+                                                              | Some old => unhook_calls s id0 old
+                                                              | None => [] end
+                                                    end
+                                    | None => [] end
+                        | _ => [] end reg) s1).
+  { intros -> Hm. rewrite Hm in F5. rewrite F5, alookup_ainsert_same.
+    intros j. unfold olk. rewrite F5, alookup_ainsert.
+    destruct (fact_schedule fact) as [sch|] eqn:Es.
+    - cbn [run fold_left apply_call]. rewrite alookup_ainsert.
+      destruct (String.eqb j id); [symmetry; exact Es|apply H].
+    - destruct (alookup id (st_facts s)) as [old|] eqn:Eo.
+      + unfold unhook_calls. rewrite Hh. destruct (fact_schedule old) as [so|] eqn:Eso.
+        * rewrite alookup_run_rem. destruct (String.eqb j id); [symmetry; exact Es|apply H].
+        * rewrite run_nil. destruct (String.eqb_spec j id) as [->|Hne]; [|apply H].
+          rewrite H. unfold olk. rewrite Eo, Eso, Es. reflexivity.
+      + rewrite run_nil. destruct (String.eqb_spec j id) as [->|Hne]; [|apply H].
+        rewrite H. unfold olk. rewrite Eo, Es. reflexivity. }
+  destruct c; cbn [ac_cond ac_mem] in *.
+  - apply Hfailcase; [apply Hcnd|reflexivity].
+  - destruct Hcnd as (_ & Hw & _). congruence.
+  - apply Hokcase; [apply Hcnd|reflexivity].
+  - destruct Hcnd as (_ & Hw & _). congruence.
+  - apply Hfailcase; [|reflexivity]. destruct Hcnd as (_ & e & _ & ->). eauto.
+  - apply Hokcase; [apply Hcnd|reflexivity].
+Qed.
+
+Lemma clear_calls_rems s : Forall is_remj (calls_clear s).
+Proof.
+  apply Forall_forall. intros c Hin. unfold calls_clear in Hin. apply in_flat_map in Hin.
+  destruct Hin as (kv & _ & Hin). unfold unhook_calls in Hin. destruct (st_hooks s); [|destruct Hin].
+  destruct (fact_schedule (snd kv)); [|destruct Hin]. destruct Hin as [<-|[]]. exact I.
+Qed.
+
+Lemma clear_tracks s reg :
+  st_hooks s = true -> st_fail s = None -> tracks reg s ->
+  tracks (run (calls_clear s) reg) (fst (st_clear s)).
+Proof.
+  intros Hh Hf H j.
+  destruct (st_clear_shape s) as (_ & _ & _ & _ & Hsh). rewrite (will_fail_nofail s Hf) in Hsh.
+  destruct Hsh as (_ & _ & F5 & _). unfold olk. rewrite F5. cbn [alookup].
+  destruct (alookup j reg) as [sch|] eqn:Er; [|apply rems_keep_none; [apply clear_calls_rems|exact Er]].
+  apply rems_remove; [apply clear_calls_rems|].
+  rewrite H in Er. unfold olk in Er. destruct (alookup j (st_facts s)) as [f|] eqn:El; [|discriminate].
+  unfold calls_clear. apply in_flat_map. exists (j, f). split; [apply AssocLemmas.alookup_In; exact El|].
+  cbn [fst snd]. unfold unhook_calls. rewrite Hh, Er. left; reflexivity.
+Qed.
+
+(** * 4. One instrumented step *)
+
+Lemma cstep_tracks persistent s reg op now :
+  st_hooks s = true -> st_fail s = None -> tracks reg s ->
+  tracks (snd (cstep persistent (s, reg) (COp op, now))) (fst (cstep persistent (s, reg) (COp op, now))).
+Proof.
+  intros Hh Hf H. unfold cstep, cstate_step, ccalls, reg_before, sstep. cbn [fst snd].
+  destruct op as [g x fr aux|id|id|p|ev|].
+  - pose proof (add_tracks persistent s g x now fr aux reg Hh Hf H) as HA.
+    destruct (st_add s g x now fr aux) as [s' r]. exact HA.
+  - apply Rem_tracks; assumption.
+  - apply get_tracks; assumption.
+  - apply search_tracks; assumption.
+  - apply find_tracks; assumption.
+  - apply clear_tracks; assumption.
+Qed.
+
+Lemma fst_cstep persistent s reg o : fst (cstep persistent (s, reg) o) = cstate_step s o.
+Proof. reflexivity. Qed.
 
 Theorem cstep_exact : cstep_exact_statement.
 Proof.
-  intros persistent s reg o s' reg' Hex W Hh Hf Hne Hd Hc.
-  destruct (exact_elim reg s W Hex) as [Hsr Hreg].
-  destruct o as [op now]. cbn [snd] in Hne. destruct op as [g x fr aux|id|id|p|ev|].
-  - (* add *)
-    unfold cstep in Hc. destruct (st_add s g x now fr aux) as [s1 r] eqn:Ea.
-    injection Hc as <- <-.
-    destruct (prepare_fact g x now fr aux) as [[id fact]|e|w|] eqn:Hp.
-    2-4: rewrite st_add_prepare_err in Ea by (rewrite Hp; intros p; discriminate);
-         rewrite Hp in Ea; injection Ea as <- <-;
-         unfold calls_add; rewrite Hh; cbn [negb orb]; rewrite andb_false_r; cbn [fold_left]; exact Hex.
-    destruct (st_add_shape s g x now fr aux id fact Hp) as (c & (F1 & F2 & F3 & F4 & F5 & _) & Hcnd).
-    rewrite Ea in F1, F2, F3, F4, F5, Hcnd. cbn [fst snd] in *.
-    assert (W1 : st_wf s1).
-    { pose proof (st_add_wf s g x now fr aux W) as H. rewrite Ea in H. exact H. }
-    pose proof (will_fail_nofail s Hf) as Hwf.
-    unfold calls_add. rewrite F2, Hh. cbn [negb orb]. rewrite andb_false_r.
-    assert (Hfailcase : (exists e, r = Err e) -> ac_mem c = false ->
-                        registry_exact (fold_left apply_call
-                          match r with
-                          | Ok id0 => match alookup id0 (st_facts s1) with
-                                      | Some fact0 => match fact_schedule fact0 with
-                                                      | Some sch => [CSched id0 sch] | None => [] end
-                                      | None => [] end
-                          | _ => [] end reg) s1 = true).
-    { intros (e & ->) Hm. cbn [fold_left]. rewrite Hm in F5.
-      apply exact_intro; [exact W1|exact Hsr|]. intros j. unfold olk. rewrite F5. apply Hreg. }
-    assert (Hokcase : r = Ok id -> ac_mem c = true ->
-                        registry_exact (fold_left apply_call
-                          match r with
-                          | Ok id0 => match alookup id0 (st_facts s1) with
-                                      | Some fact0 => match fact_schedule fact0 with
-                                                      | Some sch => [CSched id0 sch] | None => [] end
-                                      | None => [] end
-                          | _ => [] end reg) s1 = true).
-    { intros -> Hm. rewrite Hm in F5. rewrite F5, alookup_ainsert_same.
-      cbn [direct] in Hd. rewrite Hp, Ea in Hd. cbn [snd] in Hd.
-      destruct (fact_schedule fact) as [sch|] eqn:Es; cbn [fold_left apply_call].
-      - apply exact_intro; [exact W1|apply sorted_ainsert; exact Hsr|].
-        intros j. unfold olk. rewrite F5, !alookup_ainsert.
-        destruct (String.eqb j id); [symmetry; exact Es|apply Hreg].
-      - apply exact_intro; [exact W1|exact Hsr|].
-        intros j. unfold olk. rewrite F5, alookup_ainsert.
-        destruct (String.eqb_spec j id) as [->|Hj]; [|apply Hreg].
-        rewrite Es. cbn [is_some negb] in Hd. rewrite andb_true_r in Hd.
-        rewrite Hreg, <- (sched_lookup s id W).
-        destruct (alookup id (scheduled_rules s)); [discriminate|reflexivity]. }
-    destruct c; cbn [ac_cond ac_mem] in *.
-    + apply Hfailcase; [apply Hcnd|reflexivity].
-    + destruct Hcnd as (_ & Hw & _). congruence.
-    + apply Hokcase; [apply Hcnd|reflexivity].
-    + destruct Hcnd as (_ & Hw & _). congruence.
-    + apply Hfailcase; [|reflexivity]. destruct Hcnd as (_ & e & _ & ->). eauto.
-    + apply Hokcase; [apply Hcnd|reflexivity].
-  - (* Rem *)
-    unfold cstep in Hc. unfold direct in Hd.
-    rewrite (st_Rem_hooks_noexp s id now Hne Hh) in Hc, Hd.
-    injection Hc as <- <-.
-    unfold calls_rem. rewrite Hh. cbn [negb].
-    rewrite (st_get_noexp_eq s id now Hne).
-    destruct (alookup id (st_facts s)) as [fact|] eqn:El.
-    + set (s0 := set_pending s []) in *.
-      assert (W0 : st_wf s0) by (apply wf_pending; exact W).
-      assert (Hf0 : st_fail s0 = None) by exact Hf.
-      pose proof (st_rem_Sub s0 id now) as (_ & _ & _ & _ & HS & _).
-      pose proof (st_rem_wf s0 id now W0) as W1.
-      destruct (st_rem_ok_nofail s0 id now Hf0) as (had & Hok).
-      pose proof (st_rem_gone s0 id now had Hok) as Hgone.
-      cbn [fst] in Hd. pose proof (others_kept_spec s _ id W Hd) as Hk.
-      cbn [fst]. rewrite registry_exact_pending.
-      set (s1 := fst (st_rem s0 id now)) in *.
-      assert (Hreg' : forall j, alookup j (aremove id reg) = olk j s1).
-      { intros j. rewrite alookup_aremove. destruct (String.eqb_spec j id) as [->|Hj].
-        - unfold olk. rewrite Hgone. reflexivity.
-        - rewrite Hreg. unfold olk at 2. destruct (alookup j (st_facts s1)) as [f|] eqn:E1.
-          + apply HS in E1. unfold olk. change (st_facts s0) with (st_facts s) in E1. rewrite E1. reflexivity.
-          + destruct (olk j s) as [sch|] eqn:Eo; [|reflexivity]. exfalso.
-            rewrite <- (sched_lookup s j W) in Eo. exact (Hk j sch Eo Hj E1). }
-      destruct (fact_schedule fact) as [sch|] eqn:Es; cbn [fold_left apply_call].
-      * apply exact_intro; [exact W1|apply sorted_aremove; exact Hsr|exact Hreg'].
-      * apply exact_intro; [exact W1|exact Hsr|]. intros j. rewrite <- Hreg'.
-        rewrite alookup_aremove. destruct (String.eqb_spec j id) as [->|Hj]; [|reflexivity].
-        rewrite Hreg. unfold olk. rewrite El. exact Es.
-    + cbn [fst fold_left]. rewrite registry_exact_pending. exact Hex.
-  - (* Get *)
-    unfold cstep in Hc. rewrite (st_get_noexp_eq s id now Hne) in Hc. cbn [fst] in Hc.
-    injection Hc as <- <-. rewrite registry_exact_pending. exact Hex.
-  - unfold cstep in Hc. unfold st_search in Hc.
-    rewrite DurableExpiry.with_purge_noexp in Hc
-      by (rewrite (DurableExpiry.search_state_noexp_state s p now Hne); exact Hne).
-    rewrite (DurableExpiry.search_state_noexp_state s p now Hne) in Hc. cbn [fst] in Hc.
-    injection Hc as <- <-. rewrite registry_exact_pending. exact Hex.
-  - unfold cstep in Hc.
-    assert (Hfr : exists p0, fst (st_find_rules s ev now) = set_pending s p0).
-    { unfold st_find_rules, do_find_rules.
-      match goal with |- context [with_purge ?X now] =>
-        assert (HX : fst X = s);
-        [destruct (st_kind s);
-         [destruct (pi_search (st_pindex s) ev); try reflexivity;
-          apply DurableExpiry.find_ids_idx_noexp; exact Hne
-         |apply DurableExpiry.find_ids_lin_noexp; exact Hne]|];
-        rewrite (DurableExpiry.with_purge_noexp X now) by (rewrite HX; exact Hne); rewrite HX
-      end.
-      exists []. match goal with |- fst (match ?o with _ => _ end) = _ => destruct o end; reflexivity. }
-    destruct Hfr as [p0 Hfr]. rewrite Hfr in Hc. injection Hc as <- <-.
-    rewrite registry_exact_pending. exact Hex.
-  - (* Clear *)
-    cbn [cstep] in Hc. injection Hc as <- <-.
-    pose proof (st_clear_wf s W) as W1.
-    destruct (st_clear_shape s) as (_ & _ & _ & _ & Hsh). rewrite (will_fail_nofail s Hf) in Hsh.
-    destruct Hsh as (_ & _ & F5 & _).
-    assert (Ho : forall j, olk j (fst (st_clear s)) = None) by (intros j; unfold olk; rewrite F5; reflexivity).
-    cbn [direct] in Hd. unfold calls_clear. rewrite Hh. cbn [negb].
-    destruct (st_kind s).
-    + set (cs := flat_map _ (st_facts s)).
-      assert (Hall : Forall is_remj cs).
-      { apply Forall_forall. intros c Hin. unfold cs in Hin. apply in_flat_map in Hin.
-        destruct Hin as (kv & _ & Hin). destruct (fact_expired (snd kv) now); [destruct Hin|].
-        destruct (fact_schedule (snd kv)); [|destruct Hin]. destruct Hin as [<-|[]]. exact I. }
-      apply exact_intro; [exact W1|apply apply_calls_sorted; exact Hsr|].
-      intros j. rewrite Ho.
-      destruct (alookup j reg) as [sch|] eqn:Er; [|apply rems_keep_none; assumption].
-      apply rems_remove; [exact Hall|].
-      rewrite Hreg in Er. unfold olk in Er. destruct (alookup j (st_facts s)) as [f|] eqn:El; [|discriminate].
-      unfold cs. apply in_flat_map. exists (j, f). split; [apply AssocLemmas.alookup_In; exact El|].
-      cbn [fst snd]. rewrite (Hne j f El), Er. left; reflexivity.
-    + cbn [fold_left]. apply exact_intro; [exact W1|exact Hsr|].
-      intros j. rewrite Ho, Hreg, <- (sched_lookup s j W).
-      destruct (scheduled_rules s); [reflexivity|discriminate].
+  intros persistent s reg op now Hex W Hh Hf.
+  destruct (exact_tracks reg s W Hex) as [Hsr Htr].
+  pose proof (cstep_tracks persistent s reg op now Hh Hf Htr) as HT.
+  destruct (cstep persistent (s, reg) (COp op, now)) as [s' reg'] eqn:Ec.
+  cbn [fst snd] in HT.
+  assert (Es : s' = sstep s (op, now)) by (injection Ec as <- _; reflexivity).
+  assert (Er : reg' = run (ccalls persistent s (COp op, now)) reg) by (injection Ec as _ <-; reflexivity).
+  apply tracks_exact; [subst s'; apply sstep_wf; exact W| subst reg'; apply run_sorted; exact Hsr|exact HT].
 Qed.
 
-(** ** Tightness: [direct] excludes exactly the bypasses.  Under the same
-    hypotheses a non-direct operation always leaves the registry inexact. *)
-
-Lemma forallb_false_exists {A} (f : A -> bool) l :
-  forallb f l = false -> exists x, In x l /\ f x = false.
-Proof.
-  induction l as [|a r IH]; cbn [forallb]; [discriminate|].
-  destruct (f a) eqn:E; cbn [andb].
-  - intros H. destruct (IH H) as (x & Hin & Hx). exists x. split; [right; exact Hin|exact Hx].
-  - intros _. exists a. split; [left; reflexivity|exact E].
-Qed.
-
-Lemma calls_rem_cases s id now : calls_rem s id now = [] \/ calls_rem s id now = [CRemJ id].
-Proof.
-  unfold calls_rem. destruct (negb (st_hooks s)); [left; reflexivity|].
-  destruct (st_get s id now) as [s1 [f|e|w|]]; try (left; reflexivity).
-  destruct (fact_schedule f); [right|left]; reflexivity.
-Qed.
-
-Theorem cstep_inexact_if_not_direct :
-  forall persistent s reg o s' reg',
-    registry_exact reg s = true -> st_wf s -> st_hooks s = true -> st_fail s = None ->
-    direct s o = false ->
-    cstep persistent (s, reg) o = (s', reg') ->
-    registry_exact reg' s' = false.
-Proof.
-  intros persistent s reg o s' reg' Hex W Hh Hf Hd Hc.
-  destruct (exact_elim reg s W Hex) as [Hsr Hreg].
-  destruct (registry_exact reg' s') eqn:Hex'; [exfalso|reflexivity].
-  destruct o as [op now]. destruct op as [g x fr aux|id|id|p|ev|]; cbn [direct] in Hd; try discriminate.
-  - (* overwrite *)
-    unfold cstep in Hc. destruct (st_add s g x now fr aux) as [s1 r] eqn:Ea.
-    injection Hc as <- <-. cbn [snd] in Hd.
-    destruct (prepare_fact g x now fr aux) as [[id fact]|e|w|] eqn:Hp; try discriminate.
-    destruct r as [id'|e|w|]; try discriminate.
-    apply negb_false_iff, andb_true_iff in Hd. destruct Hd as [Hd1 Hd2].
-    destruct (fact_schedule fact) as [sch|] eqn:Es; [discriminate|].
-    destruct (st_add_shape s g x now fr aux id fact Hp) as (c & (F1 & F2 & F3 & F4 & F5 & _) & Hcnd).
-    rewrite Ea in F1, F2, F3, F4, F5, Hcnd. cbn [fst snd] in *.
-    assert (W1 : st_wf s1).
-    { pose proof (st_add_wf s g x now fr aux W) as H. rewrite Ea in H. exact H. }
-    assert (Hm : ac_mem c = true /\ id' = id).
-    { destruct c; cbn [ac_cond] in Hcnd.
-      - destruct Hcnd as (_ & e & He). discriminate.
-      - destruct Hcnd as (_ & _ & He). discriminate.
-      - destruct Hcnd as (_ & _ & _ & He). injection He as ->. split; reflexivity.
-      - destruct Hcnd as (_ & _ & He). discriminate.
-      - destruct Hcnd as (_ & e & _ & He). discriminate.
-      - destruct Hcnd as (_ & _ & _ & He). injection He as ->. split; reflexivity. }
-    destruct Hm as [Hm ->]. rewrite Hm in F5.
-    unfold calls_add in Hex'. rewrite F2, Hh in Hex'. cbn [negb orb] in Hex'. rewrite andb_false_r in Hex'.
-    rewrite F5, alookup_ainsert_same, Es in Hex'. cbn [fold_left] in Hex'.
-    destruct (exact_elim reg s1 W1 Hex') as [_ Hreg1].
-    specialize (Hreg1 id). unfold olk in Hreg1. rewrite F5, alookup_ainsert_same, Es in Hreg1.
-    rewrite Hreg, <- (sched_lookup s id W) in Hreg1. rewrite Hreg1 in Hd1. discriminate.
-  - (* cascade *)
-    cbn [cstep] in Hc. injection Hc as <- <-.
-    apply forallb_false_exists in Hd. destruct Hd as ([j sch] & Hin & Hj). cbn [fst] in Hj.
-    apply orb_false_iff in Hj. destruct Hj as [Hj1 Hj2]. apply String.eqb_neq in Hj1.
-    pose proof (In_sorted_alookup j sch _ (scheduled_rules_sorted s) Hin) as Hl.
-    rewrite (sched_lookup s j W), <- Hreg in Hl.
-    pose proof (st_Rem_wf s id now W) as W1.
-    destruct (exact_elim _ _ W1 Hex') as [_ Hreg1]. specialize (Hreg1 j). unfold olk in Hreg1.
-    destruct (alookup j (st_facts (fst (st_Rem s id now)))); [discriminate|].
-    destruct (calls_rem_cases s id now) as [E|E]; rewrite E in Hreg1; cbn [fold_left apply_call] in Hreg1.
-    + congruence.
-    + rewrite (alookup_aremove_other id j reg Hj1) in Hreg1. congruence.
-  - (* linear clear *)
-    cbn [cstep] in Hc. injection Hc as <- <-.
-    destruct (st_kind s) eqn:Hk; [discriminate|].
-    unfold calls_clear in Hex'. rewrite Hh, Hk in Hex'. cbn [negb fold_left] in Hex'.
-    destruct (st_clear_shape s) as (_ & _ & _ & _ & Hsh). rewrite (will_fail_nofail s Hf) in Hsh.
-    destruct Hsh as (_ & _ & F5 & _).
-    apply registry_exact_eq in Hex'. apply registry_exact_eq in Hex.
-    unfold scheduled_rules at 1 in Hex'. rewrite F5 in Hex'. cbn [fold_left] in Hex'.
-    rewrite Hex' in Hex. rewrite <- Hex in Hd. discriminate.
-Qed.
-
-(** one step, both directions *)
-Corollary cstep_exact_iff_direct :
-  forall persistent s reg o,
-    registry_exact reg s = true -> st_wf s -> st_hooks s = true -> st_fail s = None ->
-    no_expired s (snd o) ->
-    registry_exact (snd (cstep persistent (s, reg) o)) (fst (cstep persistent (s, reg) o)) = direct s o.
-Proof.
-  intros persistent s reg o Hex W Hh Hf Hne.
-  destruct (cstep persistent (s, reg) o) as [s' reg'] eqn:Ec. cbn [fst snd].
-  destruct (direct s o) eqn:Hd.
-  - eapply cstep_exact; eassumption.
-  - eapply cstep_inexact_if_not_direct; eassumption.
-Qed.
-
-(** * 3. Histories *)
-
-(** the invariant carried along an instrumented run *)
-Definition cinv (sr : state * registry) : Prop :=
-  registry_exact (snd sr) (fst sr) = true /\ st_wf (fst sr) /\
-  st_hooks (fst sr) = true /\ st_fail (fst sr) = None.
-
-Lemma cinv_init k : cinv (cinit k).
-Proof. unfold cinv, cinit. cbn. repeat split; reflexivity. Qed.
-
-Lemma cinv_step persistent sr o :
-  cinv sr -> no_expired (fst sr) (snd o) -> direct (fst sr) o = true -> cinv (cstep persistent sr o).
-Proof.
-  destruct sr as [s reg]. unfold cinv. cbn [fst snd]. intros (Hex & W & Hh & Hf) Hne Hd.
-  destruct (cstep persistent (s, reg) o) as [s' reg'] eqn:Ec.
-  pose proof (fst_cstep persistent s reg o) as Hs. rewrite Ec in Hs. cbn [fst] in Hs.
-  destruct (sstep_Pres s o) as (_ & P2 & P3 & _).
-  unfold cinv. cbn [fst snd]. split; [|split; [|split]].
-  - eapply cstep_exact; eassumption.
-  - subst s'. apply sstep_wf. exact W.
-  - subst s'. congruence.
-  - subst s'. congruence.
-Qed.
-
-Lemma crun_snoc persistent k l o : crun persistent k (l ++ [o]) = cstep persistent (crun persistent k l) o.
-Proof. unfold crun. rewrite fold_left_app. reflexivity. Qed.
-
-Lemma direct_history_inv persistent k ops :
-  direct_history persistent k ops ->
-  forall ops1 ops2, ops = (ops1 ++ ops2)%list -> cinv (crun persistent k ops1).
-Proof.
-  intros Hd ops1. induction ops1 as [|o l IH] using rev_ind; intros ops2 E.
-  - apply cinv_init.
-  - rewrite crun_snoc. rewrite <- app_assoc in E. cbn [app] in E.
-    destruct (Hd l o ops2 E) as [Hne Hdir].
-    apply cinv_step; [apply (IH (o :: ops2) E)|exact Hne|exact Hdir].
-Qed.
-
-Theorem registry_exact_direct_ops : registry_exact_direct_ops_statement.
-Proof.
-  intros persistent k ops Hd ops1 ops2 E.
-  pose proof (direct_history_inv persistent k ops Hd ops1 ops2 E) as (H & _).
-  destruct (crun persistent k ops1) as [s reg]. exact H.
-Qed.
-
-(** the instrumented run follows the plain run *)
-Lemma fst_fold_cstep persistent ops : forall sr,
-  fst (fold_left (cstep persistent) ops sr) = fold_left sstep ops (fst sr).
-Proof.
-  induction ops as [|o r IH]; intros [s reg]; cbn [fold_left]; [reflexivity|].
-  rewrite IH. rewrite fst_cstep. reflexivity.
-Qed.
-
-Lemma fst_crun persistent k ops : fst (crun persistent k ops) = reachable k true None ops.
-Proof. unfold crun, reachable. rewrite fst_fold_cstep. reflexivity. Qed.
-
-(** ** The decidable form *)
-
-(** no stored fact has an expiry instant *)
-Definition never_exp (s : state) : Prop :=
-  forall id fact, alookup id (st_facts s) = Some fact -> fact_expires fact = 0.
-
-Lemma never_exp_no_expired s now : never_exp s -> no_expired s now.
-Proof. intros H id fact El. apply never_expires_without_expiry. eapply H; exact El. Qed.
-
-Lemma never_exp_sstep s o : never_exp s -> op_never_expires o = true -> never_exp (sstep s o).
-Proof.
-  intros H Ho id fact El. apply sstep_facts_origin in El.
-  destruct El as [El|(g & x & fr & aux & now & -> & Hp)]; [eapply H; exact El|].
-  cbn [op_never_expires] in Ho. apply andb_true_iff in Ho. destruct Ho as [H1 H2].
-  eapply no_expiry_without_ttl_or_expires; [exact Hp| |].
-  - destruct (alookup "ttl" (jO x)); [discriminate|reflexivity].
-  - destruct (alookup "expires" (jO x)); [discriminate|reflexivity].
-Qed.
-
-Lemma never_exp_fold ops : forall s,
-  never_exp s -> forallb op_never_expires ops = true -> never_exp (fold_left sstep ops s).
-Proof.
-  induction ops as [|o r IH]; intros s H Ho; cbn [fold_left]; [exact H|].
-  cbn [forallb] in Ho. apply andb_true_iff in Ho. destruct Ho as [H1 H2].
-  apply IH; [apply never_exp_sstep; assumption|exact H2].
-Qed.
-
-Lemma direct_run_split persistent l1 : forall sr o l2,
-  direct_run persistent sr (l1 ++ o :: l2) = true ->
-  direct (fst (fold_left (cstep persistent) l1 sr)) o = true.
-Proof.
-  induction l1 as [|a r IH]; intros sr o l2 H; cbn [app direct_run fold_left] in *;
-    apply andb_true_iff in H; destruct H as [H1 H2]; [exact H1|].
-  eapply IH. exact H2.
-Qed.
-
-Lemma direct_run_history persistent k ops :
-  forallb op_never_expires ops = true -> direct_run persistent (cinit k) ops = true ->
-  direct_history persistent k ops.
-Proof.
-  intros Ho Hd ops1 o ops2 E. cbv zeta. subst ops. split.
-  - apply never_exp_no_expired. unfold crun. rewrite fst_fold_cstep.
-    apply never_exp_fold.
-    + intros id fact El. discriminate.
-    + rewrite forallb_app in Ho. apply andb_true_iff in Ho. apply Ho.
-  - unfold crun. eapply direct_run_split. exact Hd.
-Qed.
-
-Theorem registry_exact_direct_ops_bool : registry_exact_direct_ops_bool_statement.
-Proof.
-  intros persistent k ops Ho Hd.
-  apply (registry_exact_direct_ops persistent k ops (direct_run_history persistent k ops Ho Hd) ops []).
-  symmetry. apply app_nil_r.
-Qed.
-
-(** [direct_coarse] (any linear Clear / any overwrite attempt excluded) is stronger than [direct]. *)
-Lemma direct_coarse_direct s o : direct_coarse s o = true -> direct s o = true.
-Proof.
-  destruct o as [op now]. destruct op as [g x fr aux|id|id|p|ev|]; cbn [direct direct_coarse]; try (intros H; exact H).
-  - destruct (prepare_fact g x now fr aux) as [[id fact]|e|w|]; try reflexivity.
-    intros H. destruct (snd (st_add s g x now fr aux)); [exact H|reflexivity|reflexivity|reflexivity].
-  - destruct (st_kind s); [reflexivity|discriminate].
-Qed.
-
-(** * 4. Reload *)
-
-Lemma load_calls_fold l : forall acc,
-  fold_left apply_call
-    (flat_map (fun kv : string * json =>
-                 match fact_schedule (snd kv) with Some sch => [CSched (fst kv) sch] | None => [] end) l) acc =
-  fold_left sched_step l acc.
-Proof.
-  induction l as [|kv r IH]; intros acc; cbn [flat_map fold_left]; [reflexivity|].
-  rewrite fold_left_app, IH. f_equal. unfold sched_step.
-  destruct (fact_schedule (snd kv)); reflexivity.
-Qed.
-
-Theorem load_reregisters_indexed : load_reregisters_indexed_statement.
-Proof.
-  intros s now W HP Hm Hne Hix Hk Hh.
-  destruct (reload_same_facts s now W HP Hm Hne (fun _ => Hix)) as (s' & Hl & Hfacts & _ & Hk' & Hh' & _).
-  rewrite Hk, Hh in Hl. rewrite Hk in Hk'. rewrite Hh in Hh'.
-  exists s'. split; [exact Hl|]. split; [exact Hfacts|].
-  assert (Hsame : scheduled_rules s' = scheduled_rules s).
-  { unfold scheduled_rules. rewrite Hfacts. reflexivity. }
-  split; [|split].
-  - unfold calls_load. rewrite Hh', Hk'. cbn [negb orb].
-    rewrite load_calls_fold. apply registry_exact_eq. reflexivity.
-  - unfold calls_load. rewrite orb_true_r. reflexivity.
-  - intros reg Hex. unfold calls_load. rewrite orb_true_r. cbn [fold_left].
-    apply registry_exact_eq. rewrite Hsame. apply registry_exact_eq. exact Hex.
-Qed.
-
-(** * 5. Refutations (findings D28a-e): where the registry is not exact *)
+(** * 5. The former refutations (finding D28a-e, repaired) as positive examples *)
 
 Definition sched_rule (sch : string) : json := JObj [("rule", JObj [("schedule", JStr sch)])].
 Definition plain_fact : json := JObj [("likes", JStr "tacos")].
@@ -585,107 +606,104 @@ Definition dw_rule : json :=
 Definition exp_rule : json :=
   JObj [("expires", JNum 10); ("rule", JObj [("schedule", JStr "+1h")])].
 
+Definition add (id : string) (x : json) (now : Z) : cop * Z := (COp (SAdd id x "" None), now).
+
 (** what is stored, what is registered, what should be registered, exact? *)
 Definition cview (sr : state * registry) : list string * registry * registry * bool :=
   (map fst (st_facts (fst sr)), snd sr, scheduled_rules (fst sr), registry_exact (snd sr) (fst sr)).
 
-(** D28a: a scheduled rule overwritten by a plain fact keeps its job (both kinds, both crons). *)
-Lemma overwrite_keeps_job_counterexample :
-  forall persistent k,
-    let ops := [(SAdd "r" (sched_rule "+1h") "" None, 0); (SAdd "r" plain_fact "" None, 1)] in
-    cview (crun persistent k [(SAdd "r" (sched_rule "+1h") "" None, 0)])
-      = (["r"], [("r", "+1h")], [("r", "+1h")], true) /\
-    cview (crun persistent k ops) = (["r"], [("r", "+1h")], [], false) /\
-    (* the plain fact is what is stored under "r" *)
-    fact_schedule (match alookup "r" (st_facts (fst (crun persistent k ops))) with Some f => f | None => JNull end) = None /\
-    direct (fst (crun persistent k [(SAdd "r" (sched_rule "+1h") "" None, 0)])) (SAdd "r" plain_fact "" None, 1) = false.
-Proof. intros [|] [|]; vm_compute; repeat split; reflexivity. Qed.
+(** the calls of the last operation of a history *)
+Definition last_calls (persistent : bool) (k : skind) (ops : list (cop * Z)) (o : cop * Z) : list ccall :=
+  ccalls persistent (fst (crun persistent k ops)) o.
 
-(** D28b: a scheduled rule removed by a deleteWith cascade keeps its job. *)
-Lemma cascade_keeps_job_counterexample :
+(** D28a: a scheduled rule overwritten by a plain fact loses its job (both
+    kinds, both crons): the rem hook runs for the replaced record. *)
+Example overwrite_unschedules_example :
   forall persistent k,
-    let ops1 := [(SAdd "r" dw_rule "" None, 0); (SAdd "f" plain_fact "" None, 1)] in
-    cview (crun persistent k ops1) = (["f"; "r"], [("r", "+1h")], [("r", "+1h")], true) /\
-    cview (crun persistent k (ops1 ++ [(SRem "f", 2)])) = ([], [("r", "+1h")], [], false) /\
-    direct (fst (crun persistent k ops1)) (SRem "f", 2) = false.
-Proof. intros [|] [|]; vm_compute; repeat split; reflexivity. Qed.
-
-(** D28c: a scheduled rule purged at expiry (seen by a Get) keeps its job. *)
-Lemma expiry_keeps_job_counterexample :
-  forall persistent k,
-    let ops1 := [(SAdd "r" exp_rule "" None, 0)] in
+    let ops1 := [add "r" (sched_rule "+1h") 0] in
     cview (crun persistent k ops1) = (["r"], [("r", "+1h")], [("r", "+1h")], true) /\
-    cview (crun persistent k (ops1 ++ [(SGet "r", 20)])) = ([], [("r", "+1h")], [], false) /\
-    (* the Get is a "direct" operation: only the no-expiry hypothesis excludes it *)
-    direct (fst (crun persistent k ops1)) (SGet "r", 20) = true /\
-    fact_expired (match alookup "r" (st_facts (fst (crun persistent k ops1))) with Some f => f | None => JNull end) 20 = true.
+    last_calls persistent k ops1 (add "r" plain_fact 1) = [CRemJ "r"] /\
+    cview (crun persistent k (ops1 ++ [add "r" plain_fact 1])) = (["r"], [], [], true) /\
+    (* replaced by another scheduled rule: the cron replaces the job *)
+    last_calls persistent k ops1 (add "r" (sched_rule "+2h") 1) = [CSched "r" "+2h"] /\
+    cview (crun persistent k (ops1 ++ [add "r" (sched_rule "+2h") 1])) = (["r"], [("r", "+2h")], [("r", "+2h")], true).
 Proof. intros [|] [|]; vm_compute; repeat split; reflexivity. Qed.
 
-(** D28d: Clear of a linear location keeps every job (the indexed one drops them). *)
-Lemma linear_clear_keeps_jobs_counterexample :
-  forall persistent,
-    let ops := [(SAdd "r" (sched_rule "+1h") "" None, 0); (SClear, 1)] in
-    cview (crun persistent Linear ops) = ([], [("r", "+1h")], [], false) /\
-    cview (crun persistent Indexed ops) = ([], [], [], true) /\
-    direct (fst (crun persistent Linear [(SAdd "r" (sched_rule "+1h") "" None, 0)])) (SClear, 1) = false.
+(** D28b: a scheduled rule removed by a deleteWith cascade loses its job. *)
+Example cascade_unschedules_example :
+  forall persistent k,
+    let ops1 := [add "r" dw_rule 0; add "f" plain_fact 1] in
+    cview (crun persistent k ops1) = (["f"; "r"], [("r", "+1h")], [("r", "+1h")], true) /\
+    last_calls persistent k ops1 (COp (SRem "f"), 2) = [CRemJ "r"] /\
+    cview (crun persistent k (ops1 ++ [(COp (SRem "f"), 2)])) = ([], [], [], true).
+Proof. intros [|] [|]; vm_compute; repeat split; reflexivity. Qed.
+
+(** D28c: a scheduled rule purged at expiry (seen by a Get) loses its job. *)
+Example expiry_unschedules_example :
+  forall persistent k,
+    let ops1 := [add "r" exp_rule 0] in
+    cview (crun persistent k ops1) = (["r"], [("r", "+1h")], [("r", "+1h")], true) /\
+    fact_expired (match alookup "r" (st_facts (fst (crun persistent k ops1))) with Some f => f | None => JNull end) 20 = true /\
+    last_calls persistent k ops1 (COp (SGet "r"), 20) = [CRemJ "r"] /\
+    cview (crun persistent k (ops1 ++ [(COp (SGet "r"), 20)])) = ([], [], [], true).
+Proof. intros [|] [|]; vm_compute; repeat split; reflexivity. Qed.
+
+(** D28d: Clear drops every job, on both kinds of state (also the job of an
+    expired rule that has not been purged yet). *)
+Example clear_unschedules_example :
+  forall persistent k,
+    let ops1 := [add "e" exp_rule 0; add "r" (sched_rule "+1h") 1] in
+    last_calls persistent k ops1 (COp SClear, 20) = [CRemJ "e"; CRemJ "r"] /\
+    cview (crun persistent k (ops1 ++ [(COp SClear, 20)])) = ([], [], [], true).
+Proof. intros [|] [|]; vm_compute; repeat split; reflexivity. Qed.
+
+(** D28e: with a non-persistent cron, loading a location registers its stored
+    scheduled rules again - on both kinds of state; a persistent cron gets no
+    call (but the Rem for an expired rule that the indexed state drops). *)
+Example load_reregisters_example :
+  forall k,
+    let ops1 := [add "r" (sched_rule "+1h") 0; add "f" plain_fact 1] in
+    last_calls false k ops1 (CReload, 2) = [CSched "r" "+1h"] /\
+    cview (crun false k (ops1 ++ [(CReload, 2)])) = (["f"; "r"], [("r", "+1h")], [("r", "+1h")], true) /\
+    last_calls true k ops1 (CReload, 2) = [] /\
+    cview (crun true k (ops1 ++ [(CReload, 2)])) = (["f"; "r"], [("r", "+1h")], [("r", "+1h")], true).
 Proof. intros [|]; vm_compute; repeat split; reflexivity. Qed.
 
-(** D28e: with a non-persistent cron, loading a linear location registers
-    nothing although the storage holds a scheduled rule (the indexed one does). *)
-Lemma linear_load_misses_jobs_counterexample :
-  let s := fst (crun false Linear [(SAdd "r" (sched_rule "+1h") "" None, 0)]) in
-  let s' := fst (st_load Linear true (st_store s) 1) in
-  snd (st_load Linear true (st_store s) 1) = Ok tt /\
-  calls_load false s' = [] /\
-  scheduled_rules s' = [("r", "+1h")] /\
-  registry_exact (fold_left apply_call (calls_load false s') []) s' = false /\
-  (let si := fst (crun false Indexed [(SAdd "r" (sched_rule "+1h") "" None, 0)]) in
-   calls_load false (fst (st_load Indexed true (st_store si) 1)) = [CSched "r" "+1h"]).
+Example load_drops_expired_example :
+  let ops1 := [add "e" exp_rule 0; add "r" (sched_rule "+1h") 1] in
+  (* indexed: the expired rule is dropped from the storage, and unscheduled *)
+  last_calls true Indexed ops1 (CReload, 20) = [CRemJ "e"] /\
+  cview (crun true Indexed (ops1 ++ [(CReload, 20)])) = (["r"], [("r", "+1h")], [("r", "+1h")], true) /\
+  (* linear: it is loaded as it is (a later read purges and unschedules it) *)
+  last_calls true Linear ops1 (CReload, 20) = [] /\
+  cview (crun true Linear (ops1 ++ [(CReload, 20)])) = (["e"; "r"], [("e", "+1h"); ("r", "+1h")], [("e", "+1h"); ("r", "+1h")], true) /\
+  cview (crun true Linear (ops1 ++ [(CReload, 20); (COp (SGet "e"), 21)])) = (["r"], [("r", "+1h")], [("r", "+1h")], true).
 Proof. vm_compute. repeat split; reflexivity. Qed.
 
-(** * 6. The hypotheses of the positive theorem are satisfiable *)
+(** a longer history: adds, a reschedule, removals, a cascade, reads *)
+Definition ex_ops : list (cop * Z) :=
+  [add "r1" (sched_rule "+1h") 0; add "r2" (sched_rule "+2h") 1; add "f" plain_fact 2;
+   (COp (SRem "r1"), 3); add "r2" (sched_rule "+3h") 4; add "r3" dw_rule 5; (COp (SRem "f"), 6);
+   (COp (SGet "r2"), 7); (CReload, 8); add "r2" plain_fact 9].
 
-Definition ex_ops : list (sop * Z) :=
-  [(SAdd "r1" (sched_rule "+1h") "" None, 0); (SAdd "r2" (sched_rule "+2h") "" None, 1);
-   (SAdd "f" plain_fact "" None, 2); (SRem "r1", 3);
-   (SAdd "r2" (sched_rule "+3h") "" None, 4); (SRem "f", 5); (SGet "r2", 6)].
-
-Example direct_history_satisfiable :
+Example history_example :
   forall persistent k,
-    forallb op_never_expires ex_ops = true /\
-    direct_run persistent (cinit k) ex_ops = true /\
     forallb (fun n => let sr := crun persistent k (firstn n ex_ops) in registry_exact (snd sr) (fst sr))
-            (seq 0 8) = true /\
-    cview (crun persistent k (firstn 3 ex_ops)) =
-      (["f"; "r1"; "r2"], [("r1", "+1h"); ("r2", "+2h")], [("r1", "+1h"); ("r2", "+2h")], true) /\
-    cview (crun persistent k ex_ops) = (["r2"], [("r2", "+3h")], [("r2", "+3h")], true).
+            (seq 0 11) = true /\
+    cview (crun persistent k (firstn 6 ex_ops)) =
+      (["f"; "r2"; "r3"], [("r2", "+3h"); ("r3", "+1h")], [("r2", "+3h"); ("r3", "+1h")], true) /\
+    cview (crun persistent k (firstn 9 ex_ops)) = (["r2"], [("r2", "+3h")], [("r2", "+3h")], true) /\
+    cview (crun persistent k ex_ops) = (["r2"], [], [], true).
 Proof. intros [|] [|]; vm_compute; repeat split; reflexivity. Qed.
-
-Example direct_history_satisfiable_prop :
-  forall persistent k, direct_history persistent k ex_ops.
-Proof.
-  intros persistent k. apply direct_run_history.
-  - vm_compute. reflexivity.
-  - destruct persistent, k; vm_compute; reflexivity.
-Qed.
 
 Print Assumptions scheduled_rules_spec.
 Print Assumptions registry_exact_iff.
+Print Assumptions cstep_tracks.
 Print Assumptions cstep_exact.
-Print Assumptions cstep_inexact_if_not_direct.
-Print Assumptions cstep_exact_iff_direct.
-Print Assumptions registry_exact_direct_ops.
-Print Assumptions registry_exact_direct_ops_bool.
-Print Assumptions direct_run_history.
-Print Assumptions direct_coarse_direct.
-Print Assumptions others_kept_spec.
-Print Assumptions others_kept_complete.
-Print Assumptions fst_crun.
-Print Assumptions load_reregisters_indexed.
-Print Assumptions overwrite_keeps_job_counterexample.
-Print Assumptions cascade_keeps_job_counterexample.
-Print Assumptions expiry_keeps_job_counterexample.
-Print Assumptions linear_clear_keeps_jobs_counterexample.
-Print Assumptions linear_load_misses_jobs_counterexample.
-Print Assumptions direct_history_satisfiable.
-Print Assumptions direct_history_satisfiable_prop.
+Print Assumptions overwrite_unschedules_example.
+Print Assumptions cascade_unschedules_example.
+Print Assumptions expiry_unschedules_example.
+Print Assumptions clear_unschedules_example.
+Print Assumptions load_reregisters_example.
+Print Assumptions load_drops_expired_example.
+Print Assumptions history_example.
